@@ -47,11 +47,11 @@ pub fn spec(id: &str) -> Option<Spec> {
             Some(Spec {
                 id: "C09",
                 level: "exploration",
-                rule: "Each case is one (text, owned target, options) triple: from_str is the reference; from_slice and the str/slice closure helpers must agree; closures that skip the document (IgnoredAny) or ignore the deserializer must behave alike for string and reader input; the text with its leading BOM toggled must agree; from_reader and with_deserializer_from_reader must agree under each schedule of the case: ALL 2^(n-1) partitions when the text has at most 13 bytes, otherwise 1-byte reads, one read, a fixed k, random / boundary-hunter lists and two lists that together split at every interesting offset of the text (inside each multi-byte char, CR|LF, indicator|blank, inside --- / ..., at line breaks). Agreement = equal Debug value, or equal error variant and equal line and column. Four Spanned shapes are compared as well (line, column, character offset and length of the place of use and of definition of every node). A quarter of the seeded cases tighten one budget counter or alias limit to 0..24 so that the events charged and the place of the breach are observable per entry point. Borrow cases (every 10th): a struct of &str fields over scalars whose style is known by construction (incl. anchored scalars lent through aliases and block scalars that are empty after chomping), and the same document into Cow<str> fields, which must give exactly the String result. One evaluation = one library call. Non-trivial = a reader execution in which at least one read returned fewer bytes than requested while data remained; distinct = distinct request-trace digests.".into(),
+                rule: "Each case is one (text, owned target, options) triple: from_str is the reference; from_slice and the str/slice closure helpers must agree; for the validated struct the garde / validator twins of the single-document entry points must agree among string, slice and reader (documents that pass, fail validation or have the wrong type, followed by nothing, a second document or broken text); closures that skip the document (IgnoredAny) or ignore the deserializer must behave alike for string and reader input; the text with its leading BOM toggled must agree; from_reader and with_deserializer_from_reader must agree under each schedule of the case: ALL 2^(n-1) partitions when the text has at most 13 bytes, otherwise 1-byte reads, one read, a fixed k, random / boundary-hunter lists and two lists that together split at every interesting offset of the text (inside each multi-byte char, CR|LF, indicator|blank, inside --- / ..., at line breaks). Agreement = equal Debug value, or equal error variant and equal line and column. Four Spanned shapes are compared as well (line, column, character offset and length of the place of use and of definition of every node). A quarter of the seeded cases tighten one budget counter or alias limit to 0..24 so that the events charged and the place of the breach are observable per entry point. Borrow cases (every 10th): a struct of &str fields over scalars whose style is known by construction (incl. anchored scalars lent through aliases; one-line block scalars, which stand in the input verbatim and must lend; multi-line and folded ones, which must not), and the same document into Cow<str> fields, which must give exactly the String result. One evaluation = one library call. Non-trivial = a reader execution in which at least one read returned fewer bytes than requested while data remained; distinct = distinct request-trace digests.".into(),
                 assumptions: vec![
                     "invalid UTF-8 and UTF-16 input are outside the statement (\"the same UTF-8 text\")".into(),
                     "message text, spans and snippets are not compared across entry points".into(),
-                    "block scalars are not asserted in the borrow clause in either direction".into(),
+                    "block scalars that are empty after chomping are not asserted in the borrow clause".into(),
                 ],
                 components: components(),
                 total: Box::new(c09::total),
@@ -61,7 +61,7 @@ pub fn spec(id: &str) -> Option<Spec> {
         "C11" => Some(Spec {
             id: "C11",
             level: "exploration",
-            rule: "A case is a history of document kinds for one target (7 targets x 13-17 kinds: valid shapes, empty, explicit null, root block scalars incl. empty ones, quoted empty strings, defining anchors, defining an anchor and then failing, aliasing an anchor of an earlier document, type error early / late, surplus / missing element, duplicate key, three syntax errors, 60 aliases of one anchor - under every per-document limit, two such documents are over the alias/anchor ratio), with seeded end markers / trailing comments / start marker / implicit starts after `...`, a quarter of them under alias limits that one document stays below but two together exceed, and 5 chunk schedules. For the validated struct target the garde / validator batch (str and slice) and iterator entry points are compared with the plain ones with validation applied per document (incl. runs of null documents and a document failing validation). ALL histories up to length 3 (thorough: 4) are enumerated per target, then random histories of length 2..8. Model: every document is classified on its own (raw parser: syntax error / empty-or-null; from_str alone: value or type-level error); batch, slice-batch, read, read_with_options under each schedule and the four single-document entry points are compared with the list of per-document results and the resynchronisation rules. One evaluation = one library call on the stream. Non-trivial = iterator executions on streams of at least two documents; distinct = distinct (stream text, request trace) digests.".into(),
+            rule: "A case is a history of document kinds for one target (11 targets x 12-26 kinds - among the targets a map visitor that returns after the first entry, a root type that turns an inner error into a default, an enum whose variants are selected by tags with empty or null-like content -: valid shapes, empty, explicit null, root block scalars incl. empty ones, quoted empty strings, defining anchors, defining an anchor and then failing, aliasing an anchor of an earlier document, aliasing an anchor defined nowhere behind a type-level error, a byte-order mark in front of a later document (known finding F57), type error early / late, surplus / missing element, duplicate key, three syntax errors, 60 aliases of one anchor - under every per-document limit, two such documents are over the alias/anchor ratio), with seeded end markers / trailing comments / start marker / implicit starts after `...`, a quarter of them under alias limits that one document stays below but two together exceed, and 5 chunk schedules. For the validated struct target the garde / validator batch (str and slice) and iterator entry points are compared with the plain ones with validation applied per document (incl. runs of null documents and a document failing validation). ALL histories up to length 3 (thorough: 4) are enumerated per target, then random histories of length 2..8. Model: every document is classified on its own (raw parser: syntax error / empty-or-null; from_str alone: value or type-level error); batch, slice-batch, read, read_with_options under each schedule and the four single-document entry points are compared with the list of per-document results and the resynchronisation rules. One evaluation = one library call on the stream. Non-trivial = iterator executions on streams of at least two documents; distinct = distinct (stream text, request trace) digests.".into(),
             assumptions: vec![
                 "single-document entry points are only asserted on streams with at least two content documents".into(),
             ],
@@ -72,10 +72,10 @@ pub fn spec(id: &str) -> Option<Spec> {
         "C07" => Some(Spec {
             id: "C07",
             level: "exploration",
-            rule: "A case is a stream of documents (10 kinds: plain, anchors+aliases, merge keys incl. anchored maps that themselves contain merge keys, containers as mapping keys and `<<` as a plain value, deep nesting, long scalars, two kinds whose type-level failure leaves containers open when recovery starts, sequences, nested anchors, generated) with one document under test. ALL histories up to length 3 (thorough: 4) with the last document under test, then random streams. For the document under test an independent event-count model (own pass over raw parser events, alias expansion included) gives the usage of every counter; each limit is set to the usage (must pass) and to usage-1 (must fail with the matching breach) through from_str, from_multiple, from_reader (seeded chunking), check_yaml_budget (raw counts, both policies); the report handed to the callback must equal the model; the ratio heuristic is probed at its two thresholds; the stream total is compared for from_multiple; and under per-document enforcement (read_with_options) the item of the document under test must be the same alone and after every history, for every counter at both limits. One evaluation = one library call. Non-trivial = iterator executions of a multi-document stream under a limit derived from the document under test; distinct = distinct (request trace, limit) digests.".into(),
+            rule: "A case is a stream of documents (10 kinds: plain, anchors+aliases, merge keys incl. anchored maps that themselves contain merge keys, containers as mapping keys and `<<` as a plain value, deep nesting, long scalars, two kinds whose type-level failure leaves containers open when recovery starts, sequences, nested anchors, generated) with one document under test. ALL histories up to length 3 (thorough: 4) with the last document under test, then random streams. For the document under test an independent event-count model (own pass over raw parser events, alias expansion included) gives the usage of every counter; each limit is set to the usage (must pass) and to usage-1 (must fail with the matching breach) through from_str, from_multiple, from_reader (seeded chunking), the other single-document entry points, check_yaml_budget (raw counts, both policies), and also into a target that reads nothing (from_multiple) and a best-effort tree that keeps what it could read and goes on (from_str, from_multiple, from_reader): same verdict, same report; the report handed to the callback must equal the model; the ratio heuristic is probed at its two thresholds; the stream total is compared for from_multiple; and under per-document enforcement (read_with_options) the item of the document under test must be the same alone and after every history, for every counter at both limits, also into the no-op and best-effort targets (same items); the iterator's report is handed over once and counts the documents read. One evaluation = one library call. Non-trivial = iterator executions of a multi-document stream under a limit derived from the document under test; distinct = distinct (request trace, limit) digests.".into(),
             assumptions: vec![
                 "target is an untyped tree accepting non-string and container mapping keys (sim/src/types.rs Tree) so that every event is consumed".into(),
-                "per-document `events` has no crisp definition (stream markers): differential only; what a per-document report holds at end of stream is not asserted".into(),
+                "per-document `events` has no crisp definition (stream markers): differential only; what a per-document report holds at end of stream is not asserted beyond the number of documents".into(),
             ],
             components: components(),
             total: Box::new(c07::total),
@@ -84,7 +84,7 @@ pub fn spec(id: &str) -> Option<Spec> {
         "C15" => Some(Spec {
             id: "C15",
             level: "exploration",
-            rule: "A case is a set of call histories, one per client thread (1..3 real OS threads; exactly one runs at a time, hand-over only at SimReader reads, Probe callbacks and between calls, the next holder taken from the explicit decision list). Alphabet: 41 basic calls (a `!!binary` value to a string and to a writer refusing everything from byte 0 / 15 / 20 / 40 on, garde / validator failures of a renamed field whose YAML key has near-miss spellings next to it, successful parses, failure midway through an anchored node, failure inside an RcAnchor context, Rc / Arc sharing, recursive anchors, budget and alias-limit breaches, missing / unknown field through serde's static constructors, restrictive visitor, reader parse with an I/O fault midway, iterator abandoned half-way, two iterators stepped alternately, serialisation of a shared graph, validating entry points incl. two failing fields, panicking and failing Probe types inside an anchor context, calls failing after alias expansions, every resource limit exactly at usage, un-anchored Rc / weak wrappers, an iterator whose document fails and whose reader breaks during recovery, serialisations of same-length freshly allocated strings, a serialisation failing midway) and nestings (outer, nest point k, inner) incl. a nest point inside an anchored RcAnchor node, where a user Deserialize performs the inner call at nest point k. Enumerated: all single calls, all pairs, all triples over a 12-call core (thorough: all triples over the alphabet, all 4-histories over the core), every (outer, k, inner) nesting followed by sharing-sensitive calls; then random longer and multi-thread histories. Oracle: every call's canonical result (value, error variant + location, pointer-equality classes, Weak::upgrade) equals the same call on a fresh thread (isolation table, itself required to be identical on six fresh threads); an outer call is compared with the same outer call without nesting, the inner with its own entry. One evaluation = one call of the alphabet. Non-trivial = histories with more than one call, a nesting or several threads; distinct = distinct case digests.".into(),
+            rule: "A case is a set of call histories, one per client thread (1..3 real OS threads; exactly one runs at a time, hand-over only at SimReader reads, Probe callbacks and between calls, the next holder taken from the explicit decision list). Alphabet: 60 basic calls (user values whose Drop impl makes a call while the anchor table of a failed or finished document that holds their last reference is released - Rc and Arc flavour -, a `!!binary` value to a string and to a writer refusing everything from byte 0 / 15 / 20 / 40 on, garde / validator failures of a renamed field whose YAML key has near-miss spellings next to it, successful parses, failure midway through an anchored node, failure inside an RcAnchor context, Rc / Arc sharing, recursive anchors, budget and alias-limit breaches, missing / unknown field through serde's static constructors, restrictive visitor, reader parse with an I/O fault midway, iterator abandoned half-way, two iterators stepped alternately, serialisation of a shared graph, validating entry points incl. two failing fields, panicking and failing Probe types inside an anchor context, calls failing after alias expansions, every resource limit exactly at usage, un-anchored Rc / weak wrappers, an iterator whose document fails and whose reader breaks during recovery, serialisations of same-length freshly allocated strings, a serialisation failing midway) and nestings (outer, nest point k, inner) incl. a nest point inside an anchored RcAnchor node, where a user Deserialize performs the inner call at nest point k. Enumerated: all single calls, all pairs, all triples over a 12-call core (thorough: all triples over the alphabet, all 4-histories over the core), every (outer, k, inner) nesting followed by sharing-sensitive calls; then random longer and multi-thread histories; a single-thread history may end with a call made from the destructor of a thread-local that was initialised before the thread's first call (every call of the alphabet, and the empty history, x 10 such calls). Oracle: every call's canonical result (value, error variant + location, pointer-equality classes, Weak::upgrade) equals the same call on a fresh thread (isolation table, itself required to be identical on six fresh threads); an outer call is compared with the same outer call without nesting, the inner with its own entry. One evaluation = one call of the alphabet. Non-trivial = histories with more than one call, a nesting or several threads; distinct = distinct case digests.".into(),
             assumptions: vec![
                 "thread_local state starts clean on a freshly spawned OS thread".into(),
                 "canonical results do not compare message text except for the two-failing-field validation calls (whose rendering must be stable)".into(),
@@ -96,7 +96,7 @@ pub fn spec(id: &str) -> Option<Spec> {
         "C17" => Some(Spec {
             id: "C17",
             level: "exploration",
-            rule: "Documents whose line i starts with key k<i> (so a renderer that shows a wrong line is recognisable), 3..600 lines (beyond the 3 KiB ring and the 8 KiB BufReader), LF or CRLF, optional BOM, one failing leaf at a seeded line and column (deep inside long flow sequences, after multi-byte text), control / C1 / ANSI / OSC sequences literal in source lines and as YAML escapes in reflected keys, values, unknown fields, unknown variants and duplicate keys; targets map-of-sequences, map-of-ints, strict struct, map-of-enums, untyped, a garde-validated map of items (paths reflect map keys), a validator-validated list, and a struct in which an anchored number is aliased into a bool field (two-location alias error, definition and use 1..4 lines apart). Groups of 10 cases share one document: from_str at the five radii {0,1,5,64,10000} and from_reader under 1-byte, whole, 100-byte and seeded schedules, the last two members with the text re-encoded as UTF-16 LE / BE, a quarter of them with a read fault in the second half (the diagnostic read-ahead). Lines of 4..20 KiB (storage-time cropping) occur as error and context lines; a carriage return occurs as the only control character of a reflected text. Every returned error is rendered with Display, the default / user / custom formatters, a formatter that words every message itself and ends it with a fixed non-ASCII tail (the tail must arrive in full), snippets off, and (string input) the miette adapter. Oracle per text: no panic; no C0 except newline/tab, no DEL, no C1; at most 5 source lines per window, each within two lines of the marked one; each at most 2r+1 characters plus ellipses; gutter number = number in the k<n> key shown; caret line under the header's line; the character under the caret is the (sanitised) character at the reported column of the reported line of the input; without snippet the text names the reported line and column; an error of a string entry point that holds a source window is never rendered without a source line. One evaluation = one parse + all renderings. Non-trivial = every case that produced an error; distinct = distinct rendered-text digests.".into(),
+            rule: "Documents whose line i starts with key k<i> (so a renderer that shows a wrong line is recognisable), 3..600 lines (beyond the 3 KiB ring and the 8 KiB BufReader), LF or CRLF, optional BOM, one failing leaf at a seeded line and column (deep inside long flow sequences, after multi-byte text), control / C1 / ANSI / OSC sequences literal in source lines and as YAML escapes in reflected keys, values, unknown fields, unknown variants and duplicate keys; targets map-of-sequences, map-of-ints, strict struct, map-of-enums, untyped, a garde-validated map of items (paths reflect map keys), a validator-validated list, and a struct in which an anchored number is aliased into a bool field (two-location alias error, definition and use 1..4 lines apart). Groups of 10 cases share one document: from_str / from_multiple / the string closure helper (plain, and nested: the text is a string field of an outer document, the closure deserializes the outer document and returns the error of its own from_str call on the field) at the five radii {0,1,5,64,10000} and from_reader under 1-byte, whole, 100-byte and seeded schedules, the last two members with the text re-encoded as UTF-16 LE / BE, a quarter of them with a read fault in the second half (the diagnostic read-ahead). Lines of 4..20 KiB (storage-time cropping) occur as error and context lines; a carriage return occurs as the only control character of a reflected text. Every returned error is rendered with Display, the default / user / custom formatters, a formatter that words every message itself and ends it with a fixed non-ASCII tail (the tail must arrive in full), snippets off, and (string input and fault-free reader input) the miette adapter; one document in five of three targets stands behind a reserved directive with multi-byte parameters. Oracle per text: no panic; an error carries no source window when snippets are switched off or the radius is 0; no C0 except newline/tab, no DEL, no C1; at most 5 source lines per window, each within two lines of the marked one; each at most 2r+1 characters plus ellipses; gutter number = number in the k<n> key shown; caret line under the header's line; the character under the caret is the (sanitised) character at the reported column of the reported line of the input; without snippet the text names the reported line and column; an error of a string entry point that holds a source window is never rendered without a source line. One evaluation = one parse + all renderings. Non-trivial = every case that produced an error; distinct = distinct rendered-text digests.".into(),
             assumptions: vec![
                 "display width follows unicode-width 0.2 with tab = 4 columns; the generator keeps to characters of unambiguous width".into(),
                 "lone-CR line breaks are not generated (C16's quantifier)".into(),
@@ -109,7 +109,7 @@ pub fn spec(id: &str) -> Option<Spec> {
         "C01" => Some(Spec {
             id: "C01",
             level: "exploration",
-            rule: "Stream-facing slice of totality. (a) 1360 deep-nesting peers: 16 shapes (flow / block sequences, flow mappings, mixed, anchored and replayed twice, as mapping key, newtype-variant chain, recursive struct chain, tagged, anchored containers nested in each other, failed document whose skipped remainder defines many anchors, block-style nested mappings - the parser refuses flow nesting beyond 256 levels -, the same as value of a merge key, as complex key, as merge source through an alias) x depths {1,9,12,20,64,500,1000,1500,1990,1999,2000,2001,2010,3000,10^4,4*10^4,10^5} x 5 targets, default budget, on worker threads with exactly 8 MiB of stack. (b) Seeded cases: a generated document / stream / token soup / corpus entry / deep or wide peer / `!!binary` scalar with well-formed, padded, over-padded, truncated and whitespace-broken payloads / document for the validated struct whose failing field has no YAML key that maps back / UTF-16 re-encoding, 0..3 channel corruptions (bit flip, byte drop, chunk duplication, adjacent-chunk swap, truncation, insertion from the indicator alphabet and of invalid UTF-8), delivered under a swarmed chunk schedule with 0..2 read faults (incl. Interrupted, by read index or byte), optionally one non-sticky EOF, swarmed options incl. tight budgets and alias limits, into 23 target types, through every entry point: from_slice, from_slice_multiple, from_str, from_multiple, with_deserializer_from_slice, from_reader, with_deserializer_from_reader (closures that deserialize, ignore the deserializer, or skip), read, read_with_options (also abandoned after one item), and the garde / validator variants. Oracle: no unwind out of the library, no process abort (supervisor), bounded steps (SimReader post-end poll bound, hook H1, iterator item bound = input length + 8), every returned error renders with every renderer and through the miette adapter without panicking or hanging. One evaluation = one entry-point call. Non-trivial and distinct = distinct reader request-trace digests.".into(),
+            rule: "Stream-facing slice of totality. (a) 1360 deep-nesting peers: 16 shapes (flow / block sequences, flow mappings, mixed, anchored and replayed twice, as mapping key, newtype-variant chain, recursive struct chain, tagged, anchored containers nested in each other, failed document whose skipped remainder defines many anchors, block-style nested mappings - the parser refuses flow nesting beyond 256 levels -, the same as value of a merge key, as complex key, as merge source through an alias) x depths {1,9,12,20,64,500,1000,1500,1990,1999,2000,2001,2010,3000,10^4,4*10^4,10^5} x 5 targets, default budget, on worker threads with exactly 8 MiB of stack. (b) Seeded cases: a generated document / stream / token soup / corpus entry / deep or wide peer / `!!binary` scalar with well-formed, padded, over-padded, truncated and whitespace-broken payloads / document for the validated struct whose failing field has no YAML key that maps back / UTF-16 re-encoding, 0..3 channel corruptions (bit flip, byte drop, chunk duplication, adjacent-chunk swap, truncation, insertion from the indicator alphabet and of invalid UTF-8), delivered under a swarmed chunk schedule with 0..2 read faults (incl. Interrupted, by read index or byte), optionally one non-sticky EOF, swarmed options incl. tight budgets and alias limits, a reader that blocks for ever when polled after its end (one poll = the hang), documents whose markers stand beyond column 65535 under crop radii of 65536 and more, small documents for the probe types, into 34 target types (20 of the family and 14 probe types: reads nothing, sequences and maps of such, under-reading map visitor, value-first map visitor, variant-name-only enum visitor, deep / wide recursive types; their Deserialize impls count their calls), through every entry point: from_slice, from_slice_multiple, from_str, from_multiple, with_deserializer_from_slice, from_reader, with_deserializer_from_reader (closures that deserialize, ignore the deserializer, or skip), read, read_with_options (also abandoned after one item), and the garde / validator variants. Oracle: no unwind out of the library, no process abort (supervisor), bounded steps (SimReader post-end poll bound, hook H1, iterator item bound = input length + 8), every returned error renders with every renderer and through the miette adapter without panicking or hanging. One evaluation = one entry-point call. Non-trivial and distinct = distinct reader request-trace digests.".into(),
             assumptions: vec![
                 "exhaustive enumeration of short token strings for the in-memory entry points is bounded enumeration of a pure function and is not done here (DESIGN.md §3 C01)".into(),
                 "the stack clause is tied to the default budget by the statement: inputs larger than 4000 bytes always run with a budget".into(),
